@@ -47,7 +47,9 @@ Op ==
 StepOp  == E.k \in {"start", "dispatch", "next_rtc"}
 ExtOp   == E.k \in {"post_fifo", "post_lifo", "defer", "scribble", "recall"}
 Raises  == res' = "raise"
-ExpOutcome == IF ~Raises THEN "ok"
+Faults  == res' = "fault"        \* a handler of this step failed (the chart's own exception propagates)
+ExpOutcome == IF Faults THEN "raised:ChartFault"
+              ELSE IF ~Raises THEN "ok"
               ELSE IF E.k = "child_state" THEN "raised:AssertionError" ELSE "raised:HsmTopologyException"
 
 (* the clauses; each is TRUE when the observation agrees with the specification *)
@@ -78,7 +80,10 @@ C_Did     == (E.k = "next_rtc" /\ did' # 0) =>
                \A i \in 1..Len(E.log) : E.log[i][1] \in SeqSet(chart.sigs) => E.log[i][5] = did'
 
 Failing ==
-  IF Raises \/ E.outcome # "ok" THEN (IF C_Outcome THEN {} ELSE {"Outcome"})
+  IF Faults /\ C_Outcome
+    THEN (* the failed step consumed its event: it is not put back, and what the handlers had posted stays posted *)
+         (IF C_Q THEN {} ELSE {"Q"}) \cup (IF C_DQ THEN {} ELSE {"DQ"}) \cup (IF C_Did THEN {} ELSE {"Did"})
+  ELSE IF Raises \/ E.outcome # "ok" THEN (IF C_Outcome THEN {} ELSE {"Outcome"})
   ELSE    (IF C_Outcome THEN {} ELSE {"Outcome"}) \cup (IF C_Calls THEN {} ELSE {"Calls"})
      \cup (IF C_Marks THEN {} ELSE {"Marks"}) \cup (IF C_Cur THEN {} ELSE {"Cur"})
      \cup (IF C_Name THEN {} ELSE {"Name"}) \cup (IF C_CurState THEN {} ELSE {"CurState"})
@@ -93,6 +98,29 @@ Kind == IF StepOp /\ ~Raises /\ started
         THEN (IF cur' # cur \/ \E i \in 1..Len(alog') : alog'[i][1] = "EXIT_SIGNAL" THEN "tran" ELSE "stay")
         ELSE E.k
 
+(* which property a failing clause speaks about (the same table as harness/seqcheck.py) *)
+StepProp == CASE Kind = "start" -> "C03" [] Kind = "tran" -> "C01" [] Kind = "stay" -> "C02"
+              [] E.k \in {"is_in", "child_state"} -> "C22" [] E.k \in {"start"} -> "C03"
+              [] E.k \in {"dispatch", "next_rtc"} -> "C01" [] OTHER -> "C14"
+PropOf(c) ==
+  CASE c \in {"Calls", "Cur"} -> StepProp
+    [] c = "Outcome" -> IF ExpOutcome \notin {"ok", "raised:ChartFault"} /\ E.k # "child_state" THEN "C24" ELSE StepProp
+    [] c = "Marks" -> IF E.k = "recall" THEN "C15" ELSE "C14"
+    [] c \in {"Name", "CurState"} -> "C23"
+    [] c = "Ret" -> IF E.k = "next_rtc" THEN "C14" ELSE IF E.k = "recall" THEN "C15" ELSE "C22"
+    [] c \in {"Instr", "Rtc", "Full"} -> "C19"
+    [] c = "Trc" -> "C20"
+    [] c \in {"LiveS", "LiveT"} -> "C21"
+    [] c \in {"Q", "Did"} -> "C14"
+    [] c = "DQ" -> "C15"
+    [] OTHER -> "C17"
+(* FOCUS = a property id: only clauses that speak about that property end the trace; the    *)
+(* others are noted and the trace goes on from the specification's state, so that a defect  *)
+(* first visible to another property's clause does not hide its consequences for this one.  *)
+(* FOCUS = "" : every failing clause ends the trace.                                        *)
+Focus == IOEnv.FOCUS
+Fatal(S) == IF Focus = "" THEN S ELSE {c \in S : PropOf(c) = Focus}
+
 Report ==
   IF bad' # {}
   THEN PrintT(ToJson([tid |-> All[tid].tid, at |-> l, k |-> E.k, kind |-> Kind, bad |-> bad',
@@ -103,7 +131,7 @@ Report ==
 TNext == /\ bad = {} /\ l <= Len(Tr)
          /\ Op
          /\ l' = l + 1 /\ tid' = tid
-         /\ bad' = Failing
+         /\ bad' = Fatal(Failing)
          /\ Report
 
 TSpec == TInit /\ [][TNext]_tvars
